@@ -29,6 +29,11 @@ CLAIMED = {
         technique="scripted-reader simulation of Frame::from_stream: all 65 536 two-byte headers x read plans x truncation at every offset (EOF and reset), plus seeded random frames against a reference RFC 6455 codec",
         text="Every two-byte frame header is enumerated with a complete remainder and decoded under whole/bytewise/every-split/random/EINTR read plans, and truncated at every offset; reserved opcodes must be rejected, truncations must be read errors, complete frames must decode to the reference frame with the payload unmasked. Random frames over FIN x RSV x opcode x mask x the boundary length set up to 1 MiB check the encoder against the reference layout and the round trip.",
         note="Trusted: reference codec; the cfg-gated hook humphrey_ws::verif only forwards to the private Frame. Claimed lengths <= 1 MiB here (huge claims are C03's)."),
+    "C11": dict(
+        level="exploration", design="§6 C11",
+        technique="deterministic simulation: real App + websocket_handler on humsim's TCP with a reference RFC 6455 client (own SHA-1/Base64), scripted frame streams with fragmentation/interleaved control frames, delivery cuts inside header/extended length/key, blocking and non-blocking handlers, seeded schedules",
+        text="Seeded client scripts of masked frames (text/binary/continuation/ping/pong/close, payloads to 70 KiB incl. the 125/126/65535/65536 boundaries, 1..5 fragments with interleaved control frames), any Sec-WebSocket-Key or none, byte-wise and header-splitting deliveries, endings by client Close / server drop / FIN / RST. Oracle: 101 with the reference accept key (no key: no upgrade), everything written after the 101 decodes as unmasked frames, server-side messages equal the reference reassembly, one Pong per Ping with the same payload, Close answered and reported, drop sends Close, nothing-yet only while no data frame has started to arrive (judged on the simulator's view of delivered bytes).",
+        note="Trusted: reference codec/handshake; humsim TCP; a Close may be answered by any well-formed Close."),
     "C16": dict(
         level="exploration", design="§6 C16",
         technique="deterministic simulation: 1..8 threads through the real RwLock<Cache> under the humsim scheduler with a virtual wall clock (jumps onto second boundaries and age limits); linearisation by in-lock sequence numbers; reference model = the property; handler level over real files",
